@@ -87,9 +87,14 @@ def run_cli(story_path, inputs, json_mode, keep):
         args.append("-k")
     args.append(story_path)
     data = "".join(l + "\n" for l in inputs)
-    try:
-        r = subprocess.run(args, input=data.encode("utf-8"), capture_output=True, timeout=60)
-    except subprocess.TimeoutExpired:
+    r = None
+    for limit in (60, 400):     # (a second, much longer try: a loaded machine must not look like a hang)
+        try:
+            r = subprocess.run(args, input=data.encode("utf-8"), capture_output=True, timeout=limit)
+            break
+        except subprocess.TimeoutExpired:
+            r = None
+    if r is None:
         return None
     return r.stdout.decode("utf-8", "replace"), r.stderr.decode("utf-8", "replace"), r.returncode
 
@@ -137,7 +142,7 @@ def one_session(job):
     except Exception:
         pass
     if real is None:
-        res["violations"].append(({**desc, "why": "the tool did not terminate within 60 s"}, {"kind": "hang"}))
+        res["violations"].append(({**desc, "why": "the tool did not terminate within 400 s"}, {"kind": "hang"}))
         return res
     so, se, rc = real
     if rc not in (0, 1) or "panicked" in se:
